@@ -32,12 +32,26 @@ def main():
             for cname, ename in req["entries"]:
                 c = DataCatalog(name=cname, instance_path=d)
                 node = c[ename]
+                occupied = node.path.exists()        # nothing has been stored yet: the location must be free
                 p1 = str(node.path.relative_to(d))
                 c2 = DataCatalog(name=cname, instance_path=d)     # re-opened: must reload the same node
                 p2 = str(c2[ename].path.relative_to(d))
                 files = sorted(str(p.relative_to(d)) for p in (d / ".pytask" / "data_catalogs" / cname).glob("*"))
-                r.append({"path": p1, "reopened": p2, "n_files": len(files)})
+                r.append({"path": p1, "reopened": p2, "n_files": len(files), "occupied": occupied})
             res["entries"] = r
+        if "cwd_locations" in req:
+            # a catalog declared in a module of a project WITHOUT configuration file or repository: where its entries
+            # live must not depend on the directory the session was started from
+            proj = d / "plain" / "project"
+            (proj / "pkg").mkdir(parents=True)
+            (proj / "pkg" / "config.py").write_text("from pytask import DataCatalog\ncat = DataCatalog(name='c')\nprint('LOC', cat.path, cat['x'].path)\n")
+            locs = {}
+            for cwd in (proj / "pkg", proj, proj.parent, Path("/")):
+                q = subprocess.run([sys.executable, "-c", f"import sys; sys.path.insert(0, {str(proj / 'pkg')!r}); import config"],
+                                   capture_output=True, text=True, cwd=cwd)
+                line = [l for l in q.stdout.splitlines() if l.startswith("LOC")]
+                locs[str(cwd.relative_to(d)) if cwd != Path("/") else "/"] = line[-1].replace(str(d), "") if line else "error: " + q.stderr[-300:]
+            res["cwd_locations"] = locs
         if "roundtrip" in req:
             # sessions: producer writes values into entries, consumers read them in this and a later build
             proj = d / "proj"
